@@ -11,9 +11,13 @@ Pipeline
        render            vs  the renderings this harness feeds to the parser
        apply (render)    vs  the namespace the real parser returns, per channel;
  (3) property oracle on the REAL code: generated parsers (2-5 flat or dotted arguments, one argument
-     group) x settings with unambiguous text, rendered through THIRTEEN channels; all channels must
-     return the same configuration (type-aware: 1 != True != 1.0) or all must reject.  Invalid settings
-     (wrong type at one key, unknown key) must be rejected by every channel;
+     group; optionally list-valued options nargs=1/2/+/* and a sub-command level) x settings with
+     unambiguous text, rendered through THIRTEEN channels (argv --k=v, argv --k v, --cfg string
+     nested / dotted, --cfg file, parse_string, parse_path, parse_object nested / dotted, environment
+     with default_env, parser_mode json / jsonnet / omegaconf) plus two more spellings of the
+     environment channel (the env mapping of parse_env; a list-valued option given one bare item);
+     all channels must return the same configuration (type-aware: 1 != True != 1.0) or all must
+     reject.  Invalid settings (wrong type at one key, unknown key) must be rejected by every channel;
  (4) replay of the open findings' witnesses.
 """
 from __future__ import annotations
@@ -718,7 +722,10 @@ def shrink_case(case, still_bad):
     changed = True
     while changed:
         changed = False
+        dest = (cur["spec"].get("sub") or {}).get("dest")
         for i in range(len(cur["settings"])):
+            if cur["settings"][i][0] == dest:
+                continue    # the choice of the sub-command stays: without it the renderings are not the same settings
             cand = dict(cur, settings=cur["settings"][:i] + cur["settings"][i + 1:])
             if cand["settings"] and still_bad(cand):
                 cur, changed = cand, True
@@ -1160,9 +1167,10 @@ def correspond_channels(ctx: Ctx, cases_outs):
 def run(ctx: Ctx):
     repo_python_path()
     ctx.rule = ("generated parsers (2-5 flat or dotted arguments of depth 1-3 over int, PositiveInt, bool, str, Optional[int], List[int], List[str], "
-                "Dict[str,int], Literal[strings], Literal[ints], Enum, Any, Tuple[int,int], Tuple[int,...]; optional argument group; env_prefix variants) x settings (subset of the "
+                "Dict[str,int], Literal[strings], Literal[ints], Enum, Any, Tuple[int,int], Tuple[int,...]; optional argument group; list-valued options "
+                "nargs=1/2/+/*; optional sub-command level with 2 sub-parsers; env_prefix variants) x settings (subset of the "
                 "arguments in random order; non-string values anywhere, strings only at str-typed positions from a look-alike-heavy alphabet; "
-                "invalid: wrong type at one key, unknown key) x 13 channels on fresh parsers; one evaluation = one channel run or one model/real "
+                "invalid: wrong type at one key, unknown key) x 13 channels (+ parse_env(mapping), + bare item for a list-valued option) on fresh parsers; one evaluation = one channel run or one model/real "
                 "comparison; non-trivial = a case where >= 2 channels ran and either every channel accepted a configuration different from the "
                 "defaults or (invalid case) every channel rejected; distinct by canonical JSON of (spec, settings)")
     ctx.assumptions = [
